@@ -337,9 +337,9 @@ theorem hpSet_st (s : S α) (t : Int) (newR : α) (src : Int) (dmg : Bool) (p : 
         .ok (if (0 : α) < newR then { D with limbo := D.limbo.filter (· != t) } else D) := by
       intro u'
       rw [dst_emit _ (show dst (setUnit s u') = .ok d from h.run), deathStep_hpChange d t _ _ dmg src hc, hD]
-    have hqueue : ∀ (q : List Task) (n : Nat), q = s.queue →
-        ∀ x ∈ q ++ [(⟨t, 45, n, false, .revive t⟩ : Task)], TaskOK x := by
-      intro q n hs1 x hx
+    have hqueue : ∀ (q : List Task) (n : Nat) (pr : Int), q = s.queue →
+        ∀ x ∈ q ++ [(⟨t, pr, n, false, .revive t⟩ : Task)], TaskOK x := by
+      intro q n pr hs1 x hx
       rcases List.mem_append.1 hx with hx | hx
       · rw [hs1] at hx; exact hI.queue x hx
       · rw [List.mem_singleton.1 hx]; rfl
@@ -366,9 +366,9 @@ theorem hpSet_st (s : S α) (t : Int) (newR : α) (src : Int) (dmg : Bool) (p : 
       by_cases h4 : u.revive = true
       · rw [if_pos h4]
         refine ⟨D, ⟨?_, ?_⟩⟩
-        · rw [dst_emit _ (show dst (enqueue (emit (setUnit s _) _) t 45 false (.revive t)) = .ok _ from r0 _),
+        · rw [dst_emit _ (show dst (enqueue (emit (setUnit s _) _) t u.rprio false (.revive t)) = .ok _ from r0 _),
             deathStep_limbo, if_pos hcont]
-        · refine Inv.frame (s := setUnit s _) (key 2 (by decide) D hDd rfl ?_ ?_) rfl rfl rfl rfl (OrdSub.refl _) (hqueue _ _ rfl)
+        · refine Inv.frame (s := setUnit s _) (key 2 (by decide) D hDd rfl ?_ ?_) rfl rfl rfl rfl (OrdSub.refl _) (hqueue _ _ _ rfl)
           · intro id
             rw [hDp]
             exact mem_keep htp (fun hq => hnf hq.1) id
@@ -391,9 +391,9 @@ theorem hpSet_st (s : S α) (t : Int) (newR : α) (src : Int) (dmg : Bool) (p : 
       by_cases h4 : u.revive = true
       · rw [if_pos h4]
         refine ⟨{ D with limbo := t :: D.limbo.filter (· != t) }, ⟨?_, ?_⟩⟩
-        · rw [dst_emit _ (show dst (enqueue (emit (setUnit s _) _) t 45 false (.revive t)) = .ok _ from r0 _),
+        · rw [dst_emit _ (show dst (enqueue (emit (setUnit s _) _) t u.rprio false (.revive t)) = .ok _ from r0 _),
             deathStep_limbo, if_neg hcont, if_pos rfl]
-        · refine Inv.frame (s := setUnit s _) (key 2 (by decide) _ hDd rfl ?_ ?_) rfl rfl rfl rfl (OrdSub.refl _) (hqueue _ _ rfl)
+        · refine Inv.frame (s := setUnit s _) (key 2 (by decide) _ hDd rfl ?_ ?_) rfl rfl rfl rfl (OrdSub.refl _) (hqueue _ _ _ rfl)
           · intro id
             show id ∈ D.pending ↔ _
             rw [hDp]
@@ -477,7 +477,9 @@ theorem addMod_ok (k src : Int) (x : U α) :
     (addMod x k src).id = x.id ∧ (addMod x k src).life = x.life ∧ (addMod x k src).lastAtk = x.lastAtk := by
   unfold addMod
   split
-  · exact ⟨rfl, rfl, rfl⟩
+  · split <;> exact ⟨rfl, rfl, rfl⟩
+  split
+  · split <;> exact ⟨rfl, rfl, rfl⟩
   split
   · split <;> exact ⟨rfl, rfl, rfl⟩
   split
@@ -492,7 +494,9 @@ theorem rmMod_ok (k : Int) (x : U α) :
     (rmMod x k).id = x.id ∧ (rmMod x k).life = x.life ∧ (rmMod x k).lastAtk = x.lastAtk := by
   unfold rmMod
   split
-  · exact ⟨rfl, rfl, rfl⟩
+  · split <;> exact ⟨rfl, rfl, rfl⟩
+  split
+  · split <;> exact ⟨rfl, rfl, rfl⟩
   split
   · exact ⟨rfl, rfl, rfl⟩
   split
